@@ -295,15 +295,20 @@ def minElement (v : MVec α) : Option α := extreme minElemK mmin v
 
 end MVec
 
-/-! ### sparse vectors (`SparseVector`, `SparseVectorBlocked`): element access only
+/-! ### sparse vectors (`SparseVector`, `SparseVectorBlocked`)
 
-The value type `β` is a scalar or a block. Entries are appended by `operator()(index, val)` and the arrays
-are normalised by `sort()` (stable insertion sort by index, all but the last of a run of equal indices are
-marked with the maximal index, sorted again and cut off). -/
+The value type `β` is a scalar or a block. The C++ keeps two parallel arrays (indices, values) of
+`allocated_elements()` entries that are always updated in lockstep; `buf` is that pair of arrays, `used` is
+`_used_elements()`, `inc` is `alloc_increment()` (`min(size, 1000)`), `sorted` is the `_sorted()` flag.
+`operator()(index, val)` appends (first allocation / free slot / reallocation by `inc`, new arrays filled with
+4711); every reading member first calls `sort()`: stable `_insertion_sort` by index, all but the last entry of
+a run of equal indices are marked with the maximal index, sorted again, the marked tail is cut off `used`. -/
 section Sparse
 variable {β : Type}
 
 def idxMax : Nat := 2 ^ 64 - 1
+/-- `IT_(4711)`: fill value of freshly allocated index arrays -/
+def idxFill : Nat := 4711
 
 /-- one step of `_insertion_sort`: the element moves left past every strictly larger key -/
 def insSorted (k : Nat) (v : β) : List (Nat × β) → List (Nat × β)
@@ -319,8 +324,8 @@ def markDups : List (Nat × β) → List (Nat × β)
   | [p] => [p]
   | p :: q :: t => (if p.1 == q.1 then (idxMax, p.2) else p) :: markDups (q :: t)
 
-def sortEntries (writes : List (Nat × β)) : List (Nat × β) :=
-  (insertionSort (markDups (insertionSort writes))).filter (fun p => p.1 != idxMax)
+/-- `while(pindices[used - 1 - junk] == max && junk < used) ++junk;` -/
+def trailingMax (l : List (Nat × β)) : Nat := (l.reverse.takeWhile (fun p => p.1 == idxMax)).length
 
 /-- `operator()(index) const`: first stored index `>= index`, value if equal, else zero -/
 def sparseGet (zero : β) (entries : List (Nat × β)) (i : Nat) : β :=
@@ -328,8 +333,110 @@ def sparseGet (zero : β) (entries : List (Nat × β)) (i : Nat) : β :=
   | some p => if p.1 == i then p.2 else zero
   | none => zero
 
-def sparseDense (zero : β) (size : Nat) (entries : List (Nat × β)) : List β :=
-  (List.range size).map (sparseGet zero entries)
+structure SVec (β : Type) where
+  size : Nat
+  buf : List (Nat × β)
+  used : Nat
+  inc : Nat
+  sorted : Bool
+deriving Repr
+
+namespace SVec
+
+/-- `SparseVector(Index size)` -/
+def empty (size : Nat) : SVec β := { size := size, buf := [], used := 0, inc := min size 1000, sorted := true }
+
+/-- the stored entries (first `used` slots of the arrays) -/
+def entries (s : SVec β) : List (Nat × β) := s.buf.take s.used
+
+/-- `operator()(Index index, DT_ val)` -/
+def write (fillv : β) (s : SVec β) (i : Nat) (v : β) : SVec β :=
+  if s.buf.isEmpty then
+    { s with buf := (List.replicate s.inc (idxFill, fillv)).set 0 (i, v), used := 1, sorted := false }
+  else if s.used < s.buf.length then
+    { s with buf := s.buf.set s.used (i, v), used := s.used + 1, sorted := false }
+  else
+    { s with buf := (s.buf.take s.used ++ List.replicate (s.buf.length + s.inc - s.used) (idxFill, fillv)).set s.used (i, v),
+             used := s.used + 1, sorted := false }
+
+/-- `sort()` -/
+def sort (s : SVec β) : SVec β :=
+  if s.sorted then s
+  else if s.used == 0 then { s with sorted := true }
+  else
+    let e := insertionSort (markDups (insertionSort (s.buf.take s.used)))
+    { s with buf := e ++ s.buf.drop s.used, used := s.used - trailingMax e, sorted := true }
+
+/-- `operator()(Index index) const` (sorts through `const_cast`): value and new state -/
+def get (zero : β) (s : SVec β) (i : Nat) : β × SVec β :=
+  if s.buf.isEmpty then (zero, s)
+  else
+    let s' := s.sort
+    (sparseGet zero s'.entries i, s')
+
+/-- `used_elements()` (sorts) -/
+def usedElements (s : SVec β) : Nat × SVec β := let s' := s.sort; (s'.used, s')
+
+/-- `Container::format(value)`: every slot of the value array is overwritten, nothing else changes -/
+def format (setv : β → β) (s : SVec β) : SVec β := { s with buf := s.buf.map fun p => (p.1, setv p.2) }
+
+/-- the value array as scalars (`elements<Perspective::pod>()`, sorts) -/
+def elements {α : Type} (flat : β → List α) (s : SVec β) : List α := (s.buf.map fun p => flat p.2).flatten
+
+/-- `max_abs_element()` etc. AS CODED: the index kernel runs over the first `size<pod>()` scalars of the value
+array (not over the stored entries); `none` = null / out-of-bounds read -/
+def extremeAsCoded {α : Type} (leafK : List α → Option α) (flat : β → List α) (w : Nat) (s : SVec β) :
+    Option α × SVec β :=
+  if s.buf.isEmpty then (none, s)
+  else
+    let s' := s.sort
+    let e := s'.elements flat
+    if s.size * w ≤ e.length then (leafK (e.take (s.size * w)), s') else (none, s')
+
+/-- "last write wins": the value of the last stored entry with index `i` -/
+def lookupLast : List (Nat × β) → Nat → Option β
+  | [], _ => none
+  | (k, v) :: t, i => (lookupLast t i).or (if k = i then some v else none)
+
+/-- the partial map a sparse vector denotes -/
+def lookup (s : SVec β) (i : Nat) : Option β := lookupLast s.entries i
+
+/-- the dense vector a sparse vector denotes -/
+def dense (zero : β) (s : SVec β) : List β := (List.range s.size).map fun i => (s.lookup i).getD zero
+
+/-- SPECIFICATION of `max_abs_element()` etc.: the dense kernel on the denoted vector -/
+def extremeSpec {α : Type} (leafK : List α → Option α) (flat : β → List α) (zero : β) (s : SVec β) : Option α :=
+  leafK ((s.dense zero).map flat).flatten
+
+end SVec
+
+/-- scripts of member calls (what the correspondence run executes) -/
+inductive SOp (β : Type) where
+  | write (i : Nat) (v : β)
+  | read (i : Nat)
+  | format
+  | used
+
+/-- run a script; results of the reads (`used` yields no value here, it only sorts) -/
+def runScript (fillv zero : β) (setv : β → β) : List (SOp β) → SVec β → List β × SVec β
+  | [], s => ([], s)
+  | .write i v :: t, s => runScript fillv zero setv t (s.write fillv i v)
+  | .read i :: t, s =>
+    let (v, s') := s.get zero i
+    let (vs, s'') := runScript fillv zero setv t s'
+    (v :: vs, s'')
+  | .format :: t, s => runScript fillv zero setv t (s.format setv)
+  | .used :: t, s => runScript fillv zero setv t s.usedElements.2
+
+/-- the same script on the denoted partial map -/
+def specScript (zero : β) (setv : β → β) : List (SOp β) → (Nat → Option β) → List β × (Nat → Option β)
+  | [], m => ([], m)
+  | .write i v :: t, m => specScript zero setv t (fun j => if j = i then some v else m j)
+  | .read i :: t, m =>
+    let (vs, m') := specScript zero setv t m
+    ((m i).getD zero :: vs, m')
+  | .format :: t, m => specScript zero setv t (fun j => (m j).map setv)
+  | .used :: t, m => specScript zero setv t m
 
 end Sparse
 
